@@ -32,6 +32,9 @@ pub struct CCase {
     /// multi-column: (pattern text, haystack) per column
     pub cols: Vec<(String, String)>,
     pub perm: Vec<u16>,
+    /// earlier reparse steps (column selector, text) on the same MultiPattern, before `cols` is applied
+    #[serde(default)]
+    pub col_hist: Vec<(u8, String)>,
 }
 
 fn atom_alone(a: &Atom, hay: Utf32Str<'_>, cfg: Cfg) -> (bool, u16, Vec<u32>) {
@@ -86,7 +89,7 @@ impl Check for C15 {
         "C15"
     }
     fn rule(&self) -> String {
-        "1-5 atoms of every kind/polarity/CaseMatching/Normalization built through Atom::new (texts = substrings / subsequences of the haystack, case variants, or independent), haystacks from small palettes (ASCII and non-ASCII), all matcher configs; each atom is evaluated alone on a fresh matcher directly through the matcher functions and the results are composed by the stated rule (conjunction, negation, sum, index concatenation, prior content kept); Pattern::score / Pattern::indices / permuted atom order on a shared matcher / Atom::score / match_list on 0-84 items drawn from at most five distinct strings (many score ties; stable descending sort) / MultiPattern over 1-3 columns compared. Non-trivial: >= 2 atoms with a negative one or two different case/normalization settings, on a haystack at least one atom matches. Distinct by case hash.".into()
+        "1-5 atoms of every kind/polarity/CaseMatching/Normalization built through Atom::new (texts = substrings / subsequences of the haystack, case variants, or independent), haystacks from small palettes (ASCII and non-ASCII), all matcher configs; each atom is evaluated alone on a fresh matcher directly through the matcher functions and the results are composed by the stated rule (conjunction, negation, sum, index concatenation, prior content kept); Pattern::score / Pattern::indices / permuted atom order on a shared matcher / Atom::score / match_list on 0-84 items drawn from at most five distinct strings (many score ties; stable descending sort) / MultiPattern over 1-3 columns compared, after 0-3 earlier reparse steps on the same object (columns set and cleared again), together with is_empty(). 6% of the cases use a line of 700-1900 chars with atoms that are long pieces of it (pattern totals above 65535); ten such cases are fixed templates. Non-trivial: >= 2 atoms with a negative one or two different case/normalization settings, on a haystack at least one atom matches. Distinct by case hash.".into()
     }
     fn assumptions(&self) -> Vec<String> {
         vec!["per-atom match decisions and scores are C01-C05's business; here only the composition is judged".into()]
@@ -97,25 +100,53 @@ impl Check for C15 {
             Tier::Thorough => 5_000_000,
         }
     }
+    fn templates(&self, _tier: Tier) -> Vec<CCase> {
+        // long lines with several long atoms: the pattern total exceeds 16 bits although every atom score fits
+        let mut v = vec![];
+        let line: String = "abcdefghij".chars().cycle().take(1600).collect();
+        for (k1, k2) in [(0u8, 0u8), (0, 1), (1, 1), (2, 0), (1, 3)] {
+            for cfg_sel in 0..2u8 {
+                let cfg = Cfg { ignore_case: cfg_sel == 0, normalize: false, prefer_prefix: false, profile: 0 };
+                let a1 = AtomSpec { text: if k1 == 2 { line[..1400].to_string() } else { line[100..1500].to_string() }, kind: k1, negative: false, case: 0, norm: 0 };
+                let a2 = AtomSpec { text: if k2 == 3 { line[200..].to_string() } else { line[50..1450].to_string() }, kind: k2, negative: false, case: 1, norm: 0 };
+                let a3 = AtomSpec { text: "zz".into(), kind: 0, negative: true, case: 0, norm: 0 };
+                v.push(CCase { atoms: vec![a1, a2, a3], hay: line.clone(), cfg, prior: vec![9], items: vec![line.clone(), "abc".into(), line.clone()], cols: vec![("a".into(), "abc".into())], perm: vec![1, 2, 3, 4, 5], col_hist: vec![] });
+            }
+        }
+        // a column that is cleared while another one keeps its atoms
+        v.push(CCase { atoms: vec![AtomSpec { text: "a".into(), kind: 0, negative: false, case: 0, norm: 0 }], hay: "abc".into(), cfg: Cfg { ignore_case: true, normalize: true, prefer_prefix: false, profile: 0 }, prior: vec![], items: vec![], cols: vec![("x".into(), "abc".into()), ("".into(), "abc".into())], perm: vec![0; 5], col_hist: vec![(1, "b".into()), (0, "a".into())] });
+        v.push(CCase { atoms: vec![AtomSpec { text: "a".into(), kind: 0, negative: false, case: 0, norm: 0 }], hay: "abc".into(), cfg: Cfg { ignore_case: true, normalize: true, prefer_prefix: false, profile: 0 }, prior: vec![], items: vec![], cols: vec![("".into(), "abc".into()), ("b".into(), "abc".into()), ("".into(), "q".into())], perm: vec![0; 5], col_hist: vec![(0, "zz".into()), (2, "q".into()), (0, "".into())] });
+        v
+    }
     fn strategy(&self, _tier: Tier) -> BoxedStrategy<CCase> {
         let pal = prop_oneof![60 => gen::palette(gen::PaletteKind::Ascii), 40 => gen::palette(gen::PaletteKind::Mixed)];
         // atom raw: (mode, selectors, kind, negative, case, norm, flip-case)
         let atom_raw = (0u8..4, proptest::collection::vec(any::<u16>(), 1..=4), 0u8..5, proptest::bool::weighted(0.3), 0u8..3, 0u8..2, any::<bool>());
-        (pal, proptest::collection::vec(any::<u16>(), 1..=14), proptest::collection::vec(atom_raw, 1..=5), gen::any_cfg(), proptest::collection::vec(any::<u32>(), 0..=3), proptest::collection::vec(proptest::collection::vec(any::<u16>(), 0..=8), 0..=12), proptest::collection::vec((proptest::collection::vec(any::<u16>(), 0..=5), proptest::collection::vec(any::<u16>(), 0..=8), any::<bool>()), 1..=3), proptest::collection::vec(any::<u16>(), 5))
-            .prop_map(|(pal, hs, atoms_raw, cfg, prior, items_raw, cols_raw, perm)| {
+        (pal, proptest::collection::vec(any::<u16>(), 1..=14), proptest::collection::vec(atom_raw, 1..=5), gen::any_cfg(), proptest::collection::vec(any::<u32>(), 0..=3), proptest::collection::vec(proptest::collection::vec(any::<u16>(), 0..=8), 0..=12), proptest::collection::vec((proptest::collection::vec(any::<u16>(), 0..=5), proptest::collection::vec(any::<u16>(), 0..=8), any::<bool>()), 1..=3), proptest::collection::vec(any::<u16>(), 5), (prop_oneof![94 => Just(0usize), 6 => 700usize..1900], proptest::collection::vec((any::<u8>(), proptest::collection::vec(any::<u16>(), 0..=3)), 0..=3)))
+            .prop_map(|(pal, hs, atoms_raw, cfg, prior, items_raw, cols_raw, perm, (tile, hist_raw))| {
                 // keep whitespace out of the palette-derived texts? no: Atom::new takes any text
-                let hay = text_from(&pal, &hs);
+                let mut hay = text_from(&pal, &hs);
+                if tile > 0 {
+                    // long line: atoms that are long pieces of it score tens of thousands each
+                    hay = hay.iter().copied().cycle().take(tile).collect();
+                }
                 let n = hay.len();
                 let atoms = atoms_raw
                     .into_iter()
                     .map(|(mode, sels, kind, negative, case, norm, flip)| {
                         let mut t: Vec<char> = match mode {
-                            0 => {
+                            0 if tile == 0 => {
                                 let mut pos: Vec<usize> = sels.iter().map(|&s| map_idx(s, n)).collect();
                                 pos.sort();
                                 pos.dedup();
                                 pos.into_iter().map(|p| hay[p]).collect()
                             }
+                            0 | 1 if tile > 0 => {
+                                let st = map_idx(sels[0], n / 8 + 1);
+                                let len = n / 2 + map_idx(*sels.last().unwrap(), n / 2 - st);
+                                hay[st..st + len].to_vec()
+                            }
+                            2 if tile > 0 => hay[n - (n / 2 + map_idx(sels[0], n / 2))..].to_vec(),
                             1 => {
                                 let st = map_idx(sels[0], n);
                                 hay[st..(st + sels.len()).min(n)].to_vec()
@@ -155,7 +186,8 @@ impl Check for C15 {
                         (p.into_iter().collect::<String>(), text_from(&pal, &hs).into_iter().collect::<String>())
                     })
                     .collect();
-                CCase { atoms, hay: hay.into_iter().collect(), cfg, prior, items, cols, perm }
+                let col_hist = hist_raw.into_iter().map(|(c, ps)| (c, text_from(&pal, &ps).into_iter().filter(|c| !c.is_whitespace()).collect::<String>())).collect();
+                CCase { atoms, hay: hay.into_iter().collect(), cfg, prior, items, cols, perm, col_hist }
             })
             .boxed()
     }
@@ -268,6 +300,13 @@ impl Check for C15 {
             // multi-column
             let ncols = case.cols.len();
             let mut mp = MultiPattern::new(ncols);
+            for (c, t) in &case.col_hist {
+                mp.reparse(*c as usize % ncols.max(1), t, case_of(case.atoms[0].case), norm_of(case.atoms[0].norm), false);
+            }
+            if !case.col_hist.is_empty() {
+                labels.push("multi-column-reparse-history");
+            }
+            let mut all_empty = true;
             let mut col_expected: Option<u32> = Some(0);
             let mut hays: Vec<Utf32String> = vec![];
             for (k, (ptext, h)) in case.cols.iter().enumerate() {
@@ -275,6 +314,7 @@ impl Check for C15 {
                 let nm = norm_of(case.atoms[0].norm);
                 mp.reparse(k, ptext, cm, nm, false);
                 let p = Pattern::parse(ptext, cm, nm);
+                all_empty &= p.atoms.is_empty();
                 let hu = Utf32String::from(h.as_str());
                 let e = expected(&p.atoms, hu.slice(..), cfg);
                 col_expected = match (col_expected, e) {
@@ -285,10 +325,19 @@ impl Check for C15 {
             }
             let got_m = mp.score(&hays, &mut shared);
             if got_m != col_expected {
-                fails.push(("multi-column".into(), format!("MultiPattern::score over columns {:?} = {got_m:?}, conjunction of the columns gives {col_expected:?}; cfg={cfg:?}", case.cols)));
+                fails.push(("multi-column".into(), format!("MultiPattern::score over columns {:?} = {got_m:?}, conjunction of the columns gives {col_expected:?}; earlier reparse steps {:?}; cfg={cfg:?}", case.cols, case.col_hist)));
+            }
+            if mp.is_empty() != all_empty {
+                fails.push(("multi-column-empty".into(), format!("MultiPattern::is_empty() = {} after reparse history {:?} and final columns {:?}, but all columns empty = {all_empty}", mp.is_empty(), case.col_hist, case.cols)));
             }
             if ncols > 1 {
                 labels.push("multi-column");
+            }
+            if case.hay.chars().count() >= 700 {
+                labels.push("long-line");
+                if exp.as_ref().map_or(false, |e| e.0 > u16::MAX as u32) {
+                    labels.push("pattern-score-above-65535");
+                }
             }
             // labels / non-triviality
             let any_match = atoms.iter().any(|a| atom_alone(a, hay, cfg).0);
